@@ -206,4 +206,21 @@ def grid(thorough: bool = False):
         out.append(case("live", stream, "manifest_n.mpd", {"start": "today", "depth": "120", "verr": "503=07:07:42Z",
                                                            "vcorrupt": "07:07:50Z", "aerr": "404=07:07:45Z"}))
         out.append(case("vod", stream, "hand_made.mpd", {"verr": "503=07:07:42Z,404=3", "vcorrupt": "07:07:50Z,4"}))
+    # 7. time-of-day positions exactly ON the edges of the time shift buffer (now - depth, +-1 s, now, the stream's
+    #    first second) at a whole-second and a sub-second clock: a time inside [now - depth, now] is forwarded
+    for stream in ("bbb", "bbbaref"):
+        for now in (NOW, "2024-05-06T07:08:09.500000Z"):
+            n = datetime.datetime.strptime(now[:19], "%Y-%m-%dT%H:%M:%S")
+            tod = lambda back: (n - datetime.timedelta(seconds=back)).strftime("%H:%M:%SZ")   # noqa: E731
+            for back in (30, 29, 31, 0, 1):
+                out.append(case("live", stream, "hand_made.mpd", {
+                    "start": "today", "depth": "30", "verr": f"503={tod(back)}", "aerr": f"404={tod(back)}",
+                    "terr": f"410={tod(back)}", "vcorrupt": tod(back)}, now=now))
+            # a young stream: the buffer is clamped to the stream's age, the error sits on the stream's first second
+            for age in (20, 1):
+                start = (n - datetime.timedelta(seconds=age)).strftime("%Y-%m-%dT%H:%M:%SZ")
+                for back in (age, age - 1):
+                    out.append(case("live", stream, "hand_made.mpd", {
+                        "start": start, "depth": "30", "verr": f"503={tod(back)},404={tod(0)}",
+                        "aerr": f"404={tod(back)}", "vcorrupt": tod(back)}, now=now))
     return out
